@@ -27,6 +27,7 @@ type Options struct {
 	Mode            string // bv | lia
 	Workers         int
 	Unwind          int
+	MaxPreempt      int
 	MaxSteps        int
 	MaxPaths        int
 	StartPrefix     []int64 // debugging: explore only below this decision prefix
